@@ -39,7 +39,7 @@ def case_grid(tier, seed, which):
     add("dup", 4, 2, 1000, 10, 80, 15, 2, lpack=2, clevel=19, via="lib", n=rep)
     add("rc", 4, 2, 1200, 9, 60, 15, 2, mode="single", case=1, n=rep)
     add("basic", 4, 2, 1500, 11, 100, 15, 3, fallback=0.1, n=rep)
-    add("manysamples", 60, 1, 300, 9, 50, 15, 4)
+    add("manysamples", 100, 1, 300, 9, 50, 15, 4)                       # > 50 distinct deltas per group: two packs, duplicates in the open second pack
     add("manysamples", 30, 2, 400, 9, 50, 15, 3, mode="single")      # 60 contigs in one file: pack-boundary rounds
     if not quick:
         add("manysamples", 120, 1, 250, 9, 50, 15, 8)
